@@ -225,7 +225,8 @@ Record ctl_case := {
   cc_tcp : list (ckey * list fres);
   cc_obs : list (list obs_outcome);
   cc_calls : list (list ckey);            (* per round: primary-forwarder invocations *)
-  cc_cache : list (ckey * list rr)        (* cache dump after the run *)
+  cc_cache : list (ckey * list rr);       (* cache dump after the run *)
+  cc_shared : bool                        (* two waiters of a round were handed the same message object *)
 }.
 
 Definition outcome_matches (o : outcome) (b : obs_outcome) : bool :=
@@ -297,9 +298,11 @@ Definition check_ctl (c : ctl_case) : list N :=
   (if list_eqb (list_eqb outcome_matches) outs (cc_obs c)
       && list_eqb same_keys mcalls (cc_calls c)
       && cache_matches (c_cache s) (cc_cache c)
+      && negb (cc_shared c)   (* C09_waiter_reply_private: the model never shares a message between waiters *)
    then [] else [1])
   ++ (if forallb (fun p => forallb (fun q => obs_ok (fst q) (snd q)) (zip (fst p) (snd p))) (zip (cc_rounds c) (cc_obs c))
          && cache_ok (cc_cache c)
+         && negb (cc_shared c)
          && forallb (fun p => round_calls_ok (fst p) (snd p)) (zip (cc_rounds c) (cc_calls c))
          && list_eqb (fun (a : list client_query) (b : list obs_outcome) => Nat.eqb (length a) (length b)) (cc_rounds c) (cc_obs c)
       then [] else [2])
